@@ -516,7 +516,9 @@ def W2():
     w = new_world("W2")
     for s in ("st", "st_b"):
         _std_storage(w, s)
-    add(w, "sv", "Server", storage=link("st"))
+    # on-premise WITHOUT a fixed count: the number of instances is the ceiling of the peak, a constant that depends on
+    # every hour of the load (the branch of ServerBase.on_premise_update_nb_of_instances no other world reaches)
+    add(w, "sv", "Server", storage=link("st"), server_type=["c", "on-premise"])
     add(w, "sv_b", "Server", storage=link("st_b"), compute=Q(16, "cpu_core"))
     add(w, "j1", "Job", server=link("sv"), request_duration=Q(61, "minute"))
     add(w, "j2", "Job", server=link("sv"), data_transferred=Q(0.3, "megabyte"), data_stored=Q(33.3, "kilobyte"))
